@@ -62,7 +62,8 @@ def _detect_ssc(
     except StopIteration:
         return (file, False)
 
-    if isinstance(file, TextIO):
+    if isinstance(file, TextIOWrapper) or isinstance(file, TextIO):
+        # Rewind past the peeked parameter so the loader sees the whole file
         file.seek(0)
 
     return (file, first_param.key is not None and first_param.key.upper() == "VERSION")
